@@ -48,7 +48,7 @@ def build_repo(rng, root, big=False):
             if rng.random() < 0.5:
                 put('%s/files/%s.patch' % (d, p), blob(200000 if big and rng.random() < 0.5 else 30))
                 if rng.random() < 0.4:
-                    put('%s/files/sub/nested.conf' % d, blob(10))
+                    put('%s/files/%s/nested.conf' % (d, rng.choice(['sub', 'files', 'tmpfiles', 'init.d'])), blob(10))
             if rng.random() < 0.4:
                 # pre-existing package Manifest carrying DIST entries
                 put(d + '/Manifest', ('DIST %s-1.0.tar.gz 1234 BLAKE2B %s SHA512 %s\n' % (p, 'ab' * 64, 'cd' * 64)).encode())
